@@ -828,6 +828,9 @@ func nSlices(t *types.Named) int {
 // carries no state between calls: rules that enumerate "every field" (copies, clears, the statistics tables) have no
 // obligation for it.
 func (c *Ctx) fieldCarriesState(v *types.Var) bool {
+	if n, ok := v.Type().(*types.Named); ok && n.Obj().Pkg() != nil && n.Obj().Pkg().Path() == "sync" {
+		return false // a mutex (or another synchronisation object) holds nothing a property speaks of
+	}
 	if c.live == nil {
 		c.live = map[*types.Var]bool{}
 		fieldVar := func(t types.Type, idx int) *types.Var {
